@@ -32,11 +32,13 @@ def gen_cases(seed, tier):
     rng = np.random.default_rng([seed, 2])
     n = 72 if tier == "quick" else 640
     nvec = 60 if tier == "quick" else 200
-    devs = [1] if tier == "quick" else [1, 1, 2, 3, 4]
+    devs = [1, 1, 1, 2, 3] if tier == "quick" else [1, 1, 2, 3, 4]
     cases = []
     for i in range(n):
         solver = str(rng.choice(["vi", "vi", "vi", "sa", "per", "rvi"]))
         spec = gen.random_spec(rng, smin=2, smax=45)
+        if rng.random() < 0.2:
+            spec["S"] = int(rng.choice([65, 70, 97, 129, 130]))
         g = 1.0 if solver == "rvi" else float(rng.choice(GAMMAS))
         if solver == "per" and g == 1.0:
             period = int(rng.integers(2, 5))
